@@ -69,8 +69,14 @@ def replay_states(ctx, states, r):
       boot = np.array([float(c['boot']) for c in cols])
       # the masks may arrive as floats, booleans or integers: the value must not depend on that
       mdt = [np.float64, np.float32, np.bool_, np.int32, np.uint8][nb % 5]
-      vs, adv = gae(trunc.astype(mdt), term.astype(mdt), rw, v, boot, dy(lam), dy(gam))
-      vs, adv = np.asarray(vs, np.float64), np.asarray(adv, np.float64)
+      try:
+        vs, adv = gae(trunc.astype(mdt), term.astype(mdt), rw, v, boot, dy(lam), dy(gam))
+        vs, adv = np.asarray(vs, np.float64), np.asarray(adv, np.float64)
+      except Exception as e:  # the code under test failed: a verdict, not a machinery error
+        ctx.violation(f'compute_gae raised for T={T} lambda={dy(lam)} discount={dy(gam)} mask dtype {np.dtype(mdt).name}: '
+                      f'{type(e).__name__}: {str(e)[:200]}', {'T': T, 'B': B, 'lambda': dy(lam), 'discount': dy(gam)},
+                      {'call': 'compute_gae', 'predicate': 'raised'})
+        continue
       if vs.shape != (T, B) or adv.shape != (T, B):
         ctx.violation(f'compute_gae output shapes {vs.shape} {adv.shape}, expected {(T, B)}', {'T': T, 'B': B},
                       {'call': 'compute_gae', 'predicate': 'shape'})
